@@ -6,6 +6,7 @@ From SU Require Import F32.
 From SU.Model Require Import Quantizer.
 From SU.Spec Require Import QuantSpec.
 From SU.Proofs Require Import QuantProofs.
+From SU.Proofs Require Import QuantExtraProofs.
 Open Scope Z_scope.
 
 (** (histories are well-formed when every scale note is a u8, as the Rust API enforces)
@@ -40,7 +41,17 @@ Example C07_example :
   c_note (q_cached q) = 25 /\ c_note (snd (convert q (of_bits 1074135040))) = 26.
 Proof. vm_compute. split; reflexivity. Qed.
 
+(** non-vacuity of C07_forbid_keeps_last *)
+Theorem C07_ex_forbid_keeps_last :
+  let ops := [QForbid [1; 3; 6; 8; 10]] in
+  let ns := [0; 2; 4; 5; 7; 9; 11; 200] in
+  let q := qrun ops in
+  wf_ops ops /\ u8_notes ns /\ q_allowed q = 2741 /\ forbid_bits (q_allowed q) ns = 0 /\
+  q_allowed (quant_forbid q ns) = 2048 /\ Z.shiftl 1 (note_new (last ns 0)) = 2048.
+Proof. exact ex_forbid_keeps_last. Qed.
+
 Print Assumptions C07_mask_invariant.
 Print Assumptions C07_note_allowed.
 Print Assumptions C07_forbid_keeps_last.
 Print Assumptions C07_no_panic.
+Print Assumptions C07_ex_forbid_keeps_last.
